@@ -162,6 +162,85 @@ def order(ctx):
     ctx.check("CANARY orders are free", m.balance == cash)
 
 
+def refresh(ctx):
+    """the market is driven from its history frame (market.data), as under the Actuator: fills shrink the VISIBLE book only until the
+    book is next refreshed -- a reload of the same bar (the Actuator reloads a market that traded), and the next hourly bar, show the
+    history's book again, and the history frame itself is never written to"""
+    from demeter import Broker, MarketInfo, MarketTypeEnum
+    from demeter.deribit import DeribitOptionMarket, DeribitMarketStatus
+    from ..models.deribit import EXPIRY
+
+    p = ctx.p
+    side = p["side"]
+    name = "ETH-22SEP23-1650-C"
+    mark = 0.0287
+    books = [sym_book(ctx, name, 2, 2, mark=mark), sym_book(ctx, name, 2, 2, mark=mark, prefix="h2_")]
+    times = [NOW, NOW + pd.Timedelta("1h")]
+    rows, idx = [], []
+    for t, b in zip(times, books):
+        idx.append((t, name))
+        rows.append(dict(state="open", type="CALL", strike_price=1650, expiry_time=EXPIRY, vega=0.0, theta=0.0, rho=0.0, gamma=0.003, delta=0.5, underlying_price=1651.94, settlement_price=None,
+                         mark_price=mark, mark_iv=30.0, last_price=None, interest_rate=0, bid_iv=0.0, best_bid_price=0.0, best_bid_amount=0.0, ask_iv=0.0, best_ask_price=0.0, best_ask_amount=0.0,
+                         asks=[[px, sz] for px, sz in b["asks"]], bids=[[px, sz] for px, sz in b["bids"]]))
+    df = pd.DataFrame(rows, index=pd.MultiIndex.from_tuples(idx, names=["time", "instrument_name"])).astype(object)
+    actions = []
+    m = DeribitOptionMarket(MarketInfo("deribit", MarketTypeEnum.deribit_option), DeribitOptionMarket.ETH, data=df)
+    br = Broker(record_action_callback=actions.append)
+    br.add_market(m)
+    br.set_balance(DeribitOptionMarket.ETH, D(0))
+    m.balance = ctx.dec("cash", 0, 1000)
+    price = pd.Series([1651.94], index=["ETH"], dtype=object)
+    side_key = "asks" if side == "buy" else "bids"
+
+    def load(t):
+        m.set_market_status(DeribitMarketStatus(timestamp=t, data=None), price=price)
+
+    def visible():
+        return [(l[0], l[1]) for l in m.market_status.data.loc[name][side_key]]
+
+    def history(t):
+        return [(l[0], l[1]) for l in df.loc[(t, name), side_key]]
+
+    load(times[0])
+    if side == "sell":
+        from demeter.deribit import OptionPosition, OptionKind
+
+        held = _dec(ctx.int_("held", 1, 5000))
+        m.positions[name] = OptionPosition(name, EXPIRY, 1650, OptionKind("CALL"), held, D("0.03"), held, D(0), D(0))
+    orig = [(px, sz) for px, sz in books[0][side_key]]
+    n0 = _dec(ctx.int_("n0", 1, 5000))
+    try:
+        lst, fee = (m.buy if side == "buy" else m.sell)(name, n0)
+    except Exception as e:
+        ctx.outcome(f"rejected:{type(e).__name__}")
+        return
+    ctx.outcome("accepted")
+    fills = _fills_by_price(lst)
+    shrunk = visible()
+    ctx.check(f"{side}: the visible book shrinks by exactly the fills", sand(*[sand(a[0] == b[0], _dec(a[1]) == _dec(b[1]) - fills.get(D(str(b[0])), D(0))) for a, b in zip(shrunk, orig)]))
+    ctx.check(f"{side}: the history frame is not written to by a fill", sand(*[sand(a[0] == b[0], a[1] == b[1]) for a, b in zip(history(times[0]), orig)]))
+    load(times[0])  # the Actuator reloads a market that traded in the bar
+    ctx.check(f"{side}: after a refresh of the same bar the visible book is the history's book again", sand(*[sand(a[0] == b[0], a[1] == b[1]) for a, b in zip(visible(), orig)]))
+    n1 = _dec(ctx.int_("n1", 1, 5000))
+    cash1 = m.balance
+    try:
+        lst1, fee1 = (m.buy if side == "buy" else m.sell)(name, n1)
+        ok1 = True
+    except Exception as e:
+        ok1 = False
+    if ok1:
+        f1 = _fills_by_price(lst1)
+        ctx.check(f"{side}: an order after the refresh fills best-first from the refreshed book", sand(*[f1.get(D(str(px)), D(0)) <= _dec(sz) for px, sz in orig]) & (sum(f1.values(), D(0)) == n1))
+        best_px, best_sz = orig[0]
+        ctx.check(f"{side}: an order after the refresh takes the refreshed best level first", f1.get(D(str(best_px)), D(0)) == smin(n1, _dec(best_sz)))
+    load(times[1])
+    nxt = [(px, sz) for px, sz in books[1][side_key]]
+    ctx.check(f"{side}: the next hourly bar shows that bar's book", sand(*[sand(a[0] == b[0], a[1] == b[1]) for a, b in zip(visible(), nxt)]))
+    ctx.check(f"{side}: the history frame is intact after both bars", sand(*[sand(a[0] == b[0], a[1] == b[1]) for t, o in ((times[0], orig), (times[1], nxt)) for a, b in zip(history(t), o)]))
+    ctx.check("CANARY fills never shrink the visible book", sand(*[_dec(a[1]) == _dec(b[1]) for a, b in zip(shrunk, orig)]))
+
+
+
 def _is_multiple(x, step):
     from .. import symx
     import z3
@@ -210,5 +289,7 @@ def scenarios(tier):
         out.append(Scenario(f"{side}/market/cheap_book", order, params=dict(side=side, mode="market", levels=3 if tier != "quick" else 2, hold=True, orders=2 if tier != "quick" else 1, book="cheap"), shadows=SHADOWS, entry=(f"DeribitOptionMarket.{side}", "get_trade_fee"), nlsat=False, max_paths=4000, time_budget_s=400))
     for side in ("buy", "sell"):
         out.append(Scenario(f"{side}/market/l2/second_order_in_the_next_hourly_bar", order, params=dict(side=side, mode="market", levels=2, hold=True, orders=2, new_hour=True), shadows=SHADOWS, entry=(f"DeribitOptionMarket.{side}", "DeribitOptionMarket.set_market_status"), nlsat=False, max_paths=3000, time_budget_s=400, witness_cap=16))
+    for side in ("buy", "sell"):
+        out.append(Scenario(f"{side}/from_history/refresh_and_next_bar", refresh, params=dict(side=side), shadows=SHADOWS, entry=(f"DeribitOptionMarket.{side}", "DeribitOptionMarket.set_market_status", "get_new_order_list"), nlsat=False, max_paths=2000, time_budget_s=300, witness_cap=12, canary="CANARY fills never shrink the visible book"))
     out.append(Scenario("buy/market/l2/btc", order, params=dict(side="buy", mode="market", levels=2, hold=False, token="btc"), shadows=SHADOWS, entry=("DeribitOptionMarket.buy",), nlsat=False))
     return out
